@@ -1,6 +1,7 @@
 import DaskModel.DriverLib
 import DaskModel.Model.BlockView
 import DaskModel.Model.IntDaskIndex
+import DaskModel.Model.BoolDaskMask
 /-
 Line-protocol handlers of the C20 extension round (BlockView indexing, dask integer-array index); appended to the
 table of `Drivers/slicing.lean`.
@@ -74,7 +75,19 @@ def hIntDaskPlan : Handler := handler fun args =>
       | some r => ok [.list (r.map SExp.ofInts)]])
   | _ => none
 
+/-- `(boolmask (x chunks…) (mask chunks…) (x…) (mask…))` ↦ `(raised)` | `(ok (U…) ((block…)…))`:
+    `slice_with_bool_dask_array` for a 1-d array and a 1-d dask boolean mask -/
+def hBoolMask : Handler := handler fun args =>
+  match args with
+  | [cs, ms, x, m] => do
+    let m ← (← m.toList?).mapM SExp.toBool?
+    match Dask.BoolDaskMask.maskBlocks (← cs.toNats?) (← ms.toNats?) (← x.toInts?) m with
+    | none => pure raised
+    | some (U, bs) => pure (ok [SExp.ofNats U, .list (bs.map SExp.ofInts)])
+  | _ => none
+
 def handlers : List (String × Handler) := [
+  ("boolmask", hBoolMask),
   ("blockview", hBlockView), ("intdaskchunk", hIntDaskChunk), ("intdaskagg", hIntDaskAgg),
   ("intdaskplan", hIntDaskPlan)]
 
